@@ -191,3 +191,116 @@ def _classify_plus_one(body, st):
     if st == ("param", 1):
         return "line (inclusive)", False, True
     return "unrecognised start: " + show(st), False, True
+
+
+def map_rule(ck, F, E, P):
+    """INV-MAP: per file line of SourceFileAnalyzer::run, the BASIC line is registered in the source map
+    iff its tokens were stored in the program; every file line pushes exactly one range entry and one
+    token list (so file-line indices are always in range)."""
+    from lib import strip_refs
+    run = get_fn(ck, F, "SourceFileAnalyzer::run")
+    if run is None:
+        return
+    # the per-line loop: header = block calling Enumerate::next over `lines`
+    hdr = None
+    for c in run.calls():
+        if c.callee.endswith("Enumerate as core::iter::traits::iterator::Iterator>::next") and \
+                any(c.bb in blk for blk in run.natural_loops().values()):
+            hdr = c.bb
+            break
+    loops = run.natural_loops()
+    if hdr is None or hdr not in loops:
+        # header may be the goto block before the call
+        for h, blk in loops.items():
+            if hdr in blk and any(cc.bb == hdr for cc in run.calls()):
+                if hdr in run.succs(h) or h == hdr:
+                    hdr_loop = h
+                    break
+        else:
+            hdr_loop = None
+    else:
+        hdr_loop = hdr
+    if hdr is None or hdr_loop is None:
+        ck.missing("%s:MAP:loop" % P, "the per-file-line loop of SourceFileAnalyzer::run")
+        return
+    try:
+        paths = run.const_paths(hdr, {hdr_loop, hdr})
+    except OverflowError as e:
+        ck.bad("%s:MAP:paths" % P, "INV-MAP", str(e), run.span)
+        return
+    n = 0
+    bad_iff = []
+    bad_one = []
+    bad_ranges = []
+    for path, stop in paths:
+        if stop is None:
+            continue  # loop exit
+        n += 1
+        calls = [run.call_at(b) for b in path]
+        calls = [c for c in calls if c is not None]
+        stored = sum(1 for c in calls if sfx(c.callee, "Program::set_numbered_line"))
+        mapped = sum(1 for c in calls if sfx(c.callee, "SourceFileMap::add"))
+        entries = mapped + sum(1 for c in calls if sfx(c.callee, "SourceFileMap::add_empty") or
+                               sfx(c.callee, "SourceFileMap::add_unstored"))
+        pushes = 0
+        for c in calls:
+            if c.callee.endswith("Vec::push"):
+                e = strip_refs(run.expr(c.args[0]))
+                if e[0] == "place" and e[2] and e[2][-1][1] == "line_tokens" and e[2][-1][0].endswith("SourceFileAnalyzer"):
+                    pushes += 1
+        if (stored > 0) != (mapped > 0) or stored > 1 or mapped > 1:
+            bad_iff.append((stored, mapped, path))
+        if entries != 1 or pushes != 1:
+            bad_one.append((entries, pushes, path))
+        if mapped:
+            has_some = False
+            for b in path:
+                for st in run.blocks[b]["stmts"]:
+                    if st["k"] == "assign":
+                        fs = [p for p in st["place"]["proj"] if p["k"] == "field"]
+                        if fs and fs[-1].get("name") == "token_ranges":
+                            ee = run.rv_expr(st["rv"])
+                            if ee[0] == "agg" and ee[2] == "Some":
+                                has_some = True
+            if not has_some:
+                bad_ranges.append(path)
+    ck.note("%s.run_loop_paths" % P, n)
+    ck.require(n >= 4, "%s:MAP:run:paths-found" % P, "INV-MAP", "%d feasible paths through one loop iteration" % n,
+               "only %d paths through the per-line loop were found: the rule would be vacuous" % n, run.span, nontrivial=False)
+    ck.require(not bad_iff, "%s:MAP:run:mapped-iff-stored" % P, "INV-MAP",
+               "on all %d paths: SourceFileMap::add(basic_line, ..) is called iff Program::set_numbered_line(..) is" % n,
+               "a file line can register its BASIC line number in the source map without its tokens being stored in the "
+               "program (or vice versa): %s -- diagnostics for the definition still in effect can then not be mapped "
+               "(unwrap on None / explicit panic in the analyzer; `10 X = 1` then `10`)"
+               % ["stored=%d mapped=%d" % (a, b) for a, b, _p in bad_iff[:3]], run.span)
+    ck.require(not bad_one, "%s:MAP:run:one-entry-per-file-line" % P, "INV-MAP",
+               "every path pushes exactly one range entry and one token list",
+               "a file line pushes %s (range entries, token lists): file-line indices of diagnostics / token_types() "
+               "go out of step with the file" % [(a, b) for a, b, _p in bad_one[:3]], run.span)
+    ck.require(not bad_ranges, "%s:MAP:run:ranges-when-mapped" % P, "INV-MAP",
+               "token_ranges = Some(..) on every path that registers the line",
+               "a stored line is registered without token ranges", run.span)
+    # the ranges and the tokens come from the same tokenisation
+    setc = run.calls_to("Program::set_numbered_line")
+    ok = False
+    for c in setc:
+        e = run.expr(c.args[2])
+        if "remaining_tokens_and_ranges" in show_calls(e):
+            ok = True
+    ck.require(ok, "%s:MAP:run:tokens-from-same-tokenisation" % P, "INV-MAP",
+               "stored tokens are component .0 of remaining_tokens_and_ranges()",
+               "the analyzer stores tokens that do not come from remaining_tokens_and_ranges()", run.span)
+    # SourceFileMap::add records the index of the entry it pushes
+    ad = get_fn(ck, F, "SourceFileMap::add")
+    if ad is not None:
+        ins = [c for c in ad.calls() if c.callee.endswith("HashMap::insert")]
+        psh = [c for c in ad.calls() if c.callee.endswith("Vec::push")]
+        ok = False
+        for i in ins:
+            v = strip_expr(ad.expr(i.args[2]))
+            if v[0] == "call" and v[1].endswith("Vec::len") and "file_line_ranges" in show(v) and psh and \
+                    all(ad.dominates(v[3].bb, p.bb) for p in psh) and len(psh) == 1:
+                ok = True
+        ck.require(ok, "%s:MAP:add:index-of-pushed-entry" % P, "INV-MAP",
+                   "add() maps the BASIC line to file_line_ranges.len() taken before its single push",
+                   "SourceFileMap::add no longer maps the BASIC line to the index of the entry it pushes", ad.span)
